@@ -8,11 +8,13 @@
 (*  Part D  feedforward loop (C10): ff_*_oracle  and the exact corollaries ff_* *)
 (*                                                                             *)
 (*  `*_oracle` theorems: the float expression `time + time_step` is replaced   *)
-(*  by an arbitrary function add_step with the only hypothesis                 *)
-(*  `forall t, t <= add_step t`; since the integrator time strictly increases  *)
+(*  by an arbitrary function add_step; since the loop time strictly increases  *)
 (*  from one iteration to the next this is a value chosen adversarially at     *)
-(*  each iteration.  Theorems without the suffix are the instances             *)
-(*  add_step t = t + time_step with 0 <= time_step (exact arithmetic).         *)
+(*  each iteration.  The feedback loop needs the single hypothesis             *)
+(*  `forall t, t <= add_step t` (true of binary64 `t + step` for step >= 0);   *)
+(*  the feedforward loop needs NO hypothesis on add_step at all.  Theorems     *)
+(*  without the suffix are the instances add_step t = t + time_step (exact     *)
+(*  arithmetic; feedback: 0 <= time_step, feedforward: any time_step).         *)
 (* ------------------------------------------------------------------------- *)
 From Coq Require Import List QArith Bool Arith Lia Lqa Sorted Qminmax ZifyBool.
 From PV Require Import Model.FeedbackSched Model.FeedforwardSched.
@@ -567,16 +569,16 @@ Lemma events_epochs : forall sensors t k pre,
   innov_epochs k (flat_map (fun m => epoch_events sensors m t) pre) =
   flat_map (sel sensors k) pre.
 Proof.
-  intros sensors t k. induction pre as [|m pre IH]; cbn; [reflexivity|].
-  now rewrite innov_epochs_app, epoch_events_epochs, IH.
+  intros sensors t k. induction pre as [|m pre IH]; [reflexivity|].
+  cbn [flat_map]. now rewrite innov_epochs_app, epoch_events_epochs, IH.
 Qed.
 
 Lemma events_rows : forall sensors t k pre,
   innov_rows k (flat_map (fun m => epoch_events sensors m t) pre) =
   map (fun _ => t) (flat_map (sel sensors k) pre).
 Proof.
-  intros sensors t k. induction pre as [|m pre IH]; cbn; [reflexivity|].
-  now rewrite innov_rows_app, epoch_events_rows, IH, map_app.
+  intros sensors t k. induction pre as [|m pre IH]; [reflexivity|].
+  cbn [flat_map]. now rewrite innov_rows_app, epoch_events_rows, IH, map_app.
 Qed.
 
 Lemma events_In : forall sensors t pre k m' t',
@@ -662,4 +664,971 @@ Proof.
     + assert (Hx' : InQ x (a :: l1)) by (apply H, InQ_cons; now right).
       apply InQ_cons in Hx' as [Hx'|Hx']; [|assumption].
       apply Lower2 in Hx. lra.
+Qed.
+
+(* ========================================================================= *)
+(*  Part C : the feedback loop (C09)                                         *)
+(* ========================================================================= *)
+
+(* the trajectory times: tmf t0 incs 0 = t0, tmf t0 incs (S i) = incs[i] *)
+Definition tmf (t0 : Q) (incs : list Q) (i : nat) : Q := nth i (t0 :: incs) 0.
+
+Lemma last_tmf : forall t0 incs, incs <> [] -> last incs t0 = tmf t0 incs (length incs).
+Proof.
+  intros t0 incs Hne. rewrite (last_nth_len incs t0 Hne). unfold tmf.
+  destruct incs as [|a l]; [congruence|]. cbn [length].
+  replace (S (length l) - 1)%nat with (length l) by lia. reflexivity.
+Qed.
+
+Section Feedback.
+  Variable add_step : Q -> Q.
+  Variable t0 : Q.
+  Variable incs : list Q.
+  Variable sensors : list (list Q).
+  Hypothesis Hstep : forall t, t <= add_step t.
+  Hypothesis Hsorted : sorted (t0 :: incs).
+
+  Local Notation n := (length incs).
+  Local Notation tm := (tmf t0 incs).
+  Local Notation due := (filter (fun m => Qltb m (tm n))).
+
+  Lemma incs_sorted : sorted incs.
+  Proof. now apply sorted_cons_iff in Hsorted. Qed.
+
+  Lemma tm_lt : forall i j, (i < j)%nat -> (j <= n)%nat -> tm i < tm j.
+  Proof. intros. unfold tmf. apply sorted_nth_lt; [assumption|lia|cbn; lia]. Qed.
+
+  Lemma tm_le : forall i j, (i <= j)%nat -> (j <= n)%nat -> tm i <= tm j.
+  Proof. intros. unfold tmf. apply sorted_nth_le; [assumption|lia|cbn; lia]. Qed.
+
+  (* the batch selection always advances, never beyond the table and never
+     beyond the next pending measurement epoch *)
+  Lemma fb_step : forall idx p',
+    (idx < n)%nat ->
+    match p' with [] => True | m :: _ => tm (S idx) <= m end ->
+    let next_time := min_inf (add_step (tm idx)) (head_inf p') in
+    let nidx := searchsorted_right incs next_time in
+    let nidx' := if Nat.eqb nidx idx then S nidx else nidx in
+    (idx < nidx' <= n)%nat /\
+    match p' with [] => True | m :: _ => tm nidx' <= m end /\
+    (nidx' = S idx \/ tm nidx' <= add_step (tm idx)).
+  Proof.
+    intros idx p' Hidx Hp next_time nidx nidx'.
+    pose proof (Hstep (tm idx)) as Hs.
+    pose proof (tm_lt idx (S idx) ltac:(lia) ltac:(lia)) as Hlt.
+    assert (Hlow : tm idx <= next_time).
+    { subst next_time. destruct p' as [|m p]; cbn [min_inf head_inf]; [assumption|].
+      destruct (Qltb m (add_step (tm idx))); lra. }
+    assert (Hup : next_time <= add_step (tm idx)).
+    { subst next_time. destruct p' as [|m p]; cbn [min_inf head_inf]; [lra|].
+      destruct (Qltb m (add_step (tm idx))) eqn:E; [apply Qltb_true in E|]; lra. }
+    assert (Hupm : match p' with [] => True | m :: _ => next_time <= m end).
+    { subst next_time. destruct p' as [|m p]; cbn [min_inf head_inf]; [exact I|].
+      destruct (Qltb m (add_step (tm idx))) eqn:E; [lra|]. now apply Qltb_false in E. }
+    assert (Hge : (idx <= nidx)%nat).
+    { destruct idx as [|i]; [lia|]. subst nidx.
+      apply (ss_lower incs next_time i incs_sorted); [lia|exact Hlow]. }
+    assert (Hlen : (nidx <= n)%nat) by apply ss_le_len.
+    subst nidx'. destruct (Nat.eqb_spec nidx idx) as [He|Hne].
+    - rewrite He. split; [lia|]. split; [|now left]. exact Hp.
+    - assert (Hpre : tm nidx <= next_time).
+      { destruct nidx as [|k] eqn:Ek; [lia|]. unfold tmf; cbn [nth].
+        apply ss_prefix. fold nidx. lia. }
+      split; [lia|]. split; [|right; lra].
+      destruct p' as [|m p]; [exact I|]. lra.
+  Qed.
+
+  Lemma fb_loop_done : forall fuel pending,
+    fb_loop fuel add_step incs sensors (tm n) (tm n) n pending = [].
+  Proof.
+    intros fuel pending.
+    assert (E : Qltb (tm n) (tm n) = false) by (apply Qltb_false; lra).
+    destruct fuel; cbn [fb_loop]; now rewrite E.
+  Qed.
+
+  Lemma fb_loop_step : forall fuel idx pending, (idx < n)%nat ->
+    fb_loop (S fuel) add_step incs sensors (tm n) (tm idx) idx pending =
+    let (ev, pending') := inner sensors (tm idx) (tm (S idx)) pending in
+    let next_time := min_inf (add_step (tm idx)) (head_inf pending') in
+    let nidx := searchsorted_right incs next_time in
+    let nidx' := if Nat.eqb nidx idx then S nidx else nidx in
+    ev ++ Record (tm idx) :: Integrate idx nidx'
+       :: fb_loop fuel add_step incs sensors (tm n)
+            (last (batch incs idx nidx') (tm idx)) nidx' pending'.
+  Proof.
+    intros fuel idx pending Hidx. cbn [fb_loop].
+    assert (E : Qltb (tm idx) (tm n) = true) by (apply Qltb_true, tm_lt; lia).
+    rewrite E. rewrite (nth_error_nth' incs 0 Hidx). reflexivity.
+  Qed.
+
+  Definition fb_spec (idx : nat) (pending : list Q) (tr : list event) : Prop :=
+    completed tr = true /\
+    integrated tr = seq idx (n - idx) /\
+    (forall a b, In (Integrate a b) tr -> (idx <= a < b)%nat /\ (b <= n)%nat) /\
+    (forall k, innov_epochs k tr = flat_map (sel sensors k) (due pending)) /\
+    (forall k m t, In (Innov k m t) tr ->
+       In m (due pending) /\
+       (exists s, nth_error sensors k = Some s /\ stamped m s = true) /\
+       exists i, (idx <= i < n)%nat /\ t = tm i /\ tm i <= m /\ m < tm (S i)) /\
+    sorted (record_times tr) /\
+    (forall t, In t (record_times tr) -> exists i, (idx <= i < n)%nat /\ t = tm i) /\
+    ((idx < n)%nat -> exists r, record_times tr = tm idx :: r).
+
+  Lemma fb_loop_spec : forall fuel idx pending,
+    (n - idx <= fuel)%nat -> (idx <= n)%nat ->
+    sorted pending -> Forall (fun m => tm idx <= m) pending ->
+    fb_spec idx pending
+            (fb_loop fuel add_step incs sensors (tm n) (tm idx) idx pending).
+  Proof.
+    induction fuel as [|fuel IH]; intros idx pending Hfuel Hidx Hsp Hlow.
+    - (* no fuel needed: idx = n *)
+      assert (idx = n) as -> by lia. rewrite fb_loop_done.
+      assert (Hdue : due pending = []).
+      { apply filter_all_false. intros x Hx. rewrite Forall_forall in Hlow.
+        apply Qltb_false. auto. }
+      unfold fb_spec. rewrite Hdue, Nat.sub_diag.
+      split; [|split; [|split; [|split; [|split; [|split; [|split]]]]]];
+        try reflexivity; try (intros; contradiction); try (intros; lia).
+      constructor.
+    - destruct (Nat.eq_dec idx n) as [->|Hne].
+      { rewrite fb_loop_done.
+        assert (Hdue : due pending = []).
+        { apply filter_all_false. intros x Hx. rewrite Forall_forall in Hlow.
+          apply Qltb_false. auto. }
+        unfold fb_spec. rewrite Hdue, Nat.sub_diag.
+        split; [|split; [|split; [|split; [|split; [|split; [|split]]]]]];
+          try reflexivity; try (intros; contradiction); try (intros; lia).
+        constructor. }
+      assert (Hlt : (idx < n)%nat) by lia.
+      rewrite (fb_loop_step fuel idx pending Hlt).
+      destruct (inner sensors (tm idx) (tm (S idx)) pending) as [ev p'] eqn:Einner.
+      apply inner_spec in Einner as (pre & Hsplit & Hev & Hpre & Hhead).
+      destruct (fb_step idx p' Hlt Hhead) as (Hn' & Hhead' & _).
+      cbv zeta.
+      set (nidx' := if Nat.eqb (searchsorted_right incs
+                        (min_inf (add_step (tm idx)) (head_inf p'))) idx
+                    then S (searchsorted_right incs
+                        (min_inf (add_step (tm idx)) (head_inf p')))
+                    else searchsorted_right incs
+                        (min_inf (add_step (tm idx)) (head_inf p'))) in *.
+      assert (Hlast : last (batch incs idx nidx') (tm idx) = tm nidx').
+      { rewrite batch_last by lia. unfold tmf.
+        destruct nidx' as [|k]; [lia|]. cbn [nth]. f_equal. lia. }
+      rewrite Hlast.
+      assert (Hsp' : sorted p') by (subst pending; now apply sorted_app_r in Hsp).
+      assert (Hlow' : Forall (fun m => tm nidx' <= m) p').
+      { destruct p' as [|m p]; [constructor|]. now apply sorted_head_le. }
+      specialize (IH nidx' p' ltac:(lia) ltac:(lia) Hsp' Hlow').
+      set (tr' := fb_loop fuel add_step incs sensors (tm n) (tm nidx') nidx' p') in *.
+      destruct IH as (I1 & I2 & I3 & I4 & I5 & I6 & I7 & I8).
+      pose proof (events_all_innov sensors (tm idx) pre) as Hall. rewrite <- Hev in Hall.
+      assert (Hdue : due pending = pre ++ due p').
+      { subst pending. apply (filter_lt_split pre p' (tm (S idx))); [assumption|].
+        apply tm_le; lia. }
+      unfold fb_spec.
+      change (ev ++ Record (tm idx) :: Integrate idx nidx' :: tr')
+        with (ev ++ [Record (tm idx); Integrate idx nidx'] ++ tr').
+      split; [|split; [|split; [|split; [|split; [|split; [|split]]]]]].
+      + rewrite !completed_app, I1, (all_innov_completed ev Hall). reflexivity.
+      + rewrite !integrated_app, I2, (all_innov_integrated ev Hall). cbn [integrated flat_map app].
+        rewrite app_nil_r.
+        replace (n - idx)%nat with ((nidx' - idx) + (n - nidx'))%nat by lia.
+        rewrite seq_app. do 2 f_equal. lia.
+      + intros a b H.
+        apply in_app_or in H as [H|H]; [now apply all_innov_no_integrate in H|].
+        apply in_app_or in H as [H|H].
+        * destruct H as [H|[H|[]]]; inversion H; subst. lia.
+        * apply I3 in H. lia.
+      + intro k. rewrite !innov_epochs_app, I4, Hdue, flat_map_app. f_equal.
+        subst ev. apply events_epochs.
+      + intros k m t H. apply in_app_or in H as [H|H].
+        * subst ev. apply events_In in H as (Hm & -> & Hs).
+          split; [rewrite Hdue; apply in_or_app; now left|].
+          split; [assumption|].
+          exists idx. split; [lia|]. split; [reflexivity|].
+          rewrite Forall_forall in Hlow, Hpre. split.
+          -- apply Hlow. subst pending. apply in_or_app. now left.
+          -- now apply Hpre.
+        * apply in_app_or in H as [H|H]; [destruct H as [H|[H|[]]]; discriminate H|].
+          apply I5 in H as (Hm & Hs & i & Hi & Hrest).
+          split; [rewrite Hdue; apply in_or_app; now right|].
+          split; [assumption|].
+          exists i. split; [lia|assumption].
+      + rewrite !record_times_app, (all_innov_records ev Hall). cbn [record_times flat_map app].
+        apply sorted_cons_iff. split; [assumption|].
+        apply Forall_forall. intros x Hx. apply I7 in Hx as (i & Hi & ->).
+        apply tm_lt; lia.
+      + intros t H. rewrite !record_times_app, (all_innov_records ev Hall) in H.
+        cbn [record_times flat_map app] in H. destruct H as [<-|H].
+        * exists idx. split; [lia|reflexivity].
+        * apply I7 in H as (i & Hi & ->). exists i. split; [lia|reflexivity].
+      + intros _. rewrite !record_times_app, (all_innov_records ev Hall).
+        cbn [record_times flat_map app]. eexists. reflexivity.
+  Qed.
+End Feedback.
+
+(* ---------- feedback: whole function -------------------------------------- *)
+
+Lemma batches_integrated : forall incs tr,
+  (forall a b, In (Integrate a b) tr -> (a <= b)%nat /\ (b <= length incs)%nat) ->
+  flat_map (fun e => match e with Integrate a b => batch incs a b | _ => [] end) tr =
+  map (fun i => nth i incs 0) (integrated tr).
+Proof.
+  intros incs tr. induction tr as [|e tr IH]; intro H; [reflexivity|].
+  cbn [flat_map]. unfold integrated. cbn [flat_map]. fold (integrated tr).
+  rewrite map_app, IH by (intros a b Hab; apply H; now right). f_equal.
+  destruct e; try reflexivity.
+  destruct (H a b ltac:(now left)) as [H1 H2]. now apply batch_seq.
+Qed.
+
+Lemma InQ_filter_range : forall lo hi s x,
+  InQ x (filter (in_range lo hi) s) <-> InQ x s /\ lo <= x /\ x < hi.
+Proof.
+  intros lo hi s x. split.
+  - intros [y [Hin He]]. apply filter_In in Hin as [Hin Hr]. apply in_range_true in Hr.
+    split; [now exists y|lra].
+  - intros [[y [Hin He]] Hr]. exists y. split; [|assumption].
+    apply filter_In. split; [assumption|]. apply in_range_true. lra.
+Qed.
+
+Section FeedbackTop.
+  Variable add_step : Q -> Q.
+  Variable t0 : Q.
+  Variable incs : list Q.
+  Variable sensors : list (list Q).
+  Variable fuel : nat.
+  Hypothesis Hstep : forall t, t <= add_step t.
+  Hypothesis Hsorted : sorted (t0 :: incs).
+  Hypothesis Hne : incs <> [].
+  Hypothesis Hfuel : (length incs <= fuel)%nat.
+
+  Local Notation n := (length incs).
+  Local Notation tend := (last incs t0).
+  Local Notation tr := (fb_run fuel add_step t0 incs sensors).
+
+  Lemma fb_run_spec :
+    fb_spec t0 incs sensors 0 (clip t0 tend (merge_times sensors)) tr.
+  Proof.
+    unfold fb_run. destruct incs as [|a l] eqn:E; [congruence|]. rewrite <- E in *.
+    rewrite (last_tmf t0 incs Hne).
+    change t0 with (tmf t0 incs 0) at 3.
+    apply fb_loop_spec; try assumption; try lia.
+    - apply clip_sorted, merge_times_sorted.
+    - apply Forall_forall. intros m Hm. apply clip_In in Hm. unfold tmf. cbn [nth]. tauto.
+  Qed.
+
+  Lemma fb_due_clip :
+    filter (fun m => Qltb m (tmf t0 incs n)) (clip t0 tend (merge_times sensors)) =
+    filter (in_range t0 tend) (merge_times sensors).
+  Proof. rewrite <- (last_tmf t0 incs Hne). apply filter_lt_clip. Qed.
+
+  Theorem fb_terminates_sec : completed tr = true.
+  Proof. apply fb_run_spec. Qed.
+
+  Theorem fb_imu_exactly_once_sec :
+    integrated tr = seq 0 n /\
+    (forall a b, In (Integrate a b) tr -> (a < b)%nat /\ (b <= n)%nat) /\
+    fb_trajectory_index t0 incs tr = t0 :: incs.
+  Proof.
+    destruct fb_run_spec as (_ & H2 & H3 & _). rewrite Nat.sub_0_r in H2.
+    split; [assumption|]. split.
+    - intros a b H. apply H3 in H. lia.
+    - unfold fb_trajectory_index. f_equal. rewrite batches_integrated.
+      + rewrite H2. apply map_nth_seq.
+      + intros a b H. apply H3 in H. lia.
+  Qed.
+
+  Theorem fb_meas_exactly_once_sec :
+    (forall k s, nth_error sensors k = Some s ->
+       sorted (innov_epochs k tr) /\
+       (forall x, InQ x (innov_epochs k tr) <-> InQ x s /\ t0 <= x /\ x < tend) /\
+       Forall2 Qeq (innov_epochs k tr) (sort_unique (filter (in_range t0 tend) s))) /\
+    (forall k, nth_error sensors k = None -> innov_epochs k tr = []).
+  Proof.
+    destruct fb_run_spec as (_ & _ & _ & H4 & _).
+    split.
+    - intros k s Hk. rewrite H4, fb_due_clip.
+      destruct (sensor_epochs_spec sensors k s t0 tend Hk) as [S1 S2].
+      split; [assumption|]. split; [assumption|].
+      apply sorted_same_elements; [assumption|apply sort_unique_sorted|].
+      intro x. rewrite S2, sort_unique_InQ, InQ_filter_range. tauto.
+    - intros k Hk. rewrite H4. now apply sel_none.
+  Qed.
+
+  Theorem fb_innov_sound_sec : forall k m t, In (Innov k m t) tr ->
+    t0 <= m /\ m < tend /\
+    (exists s, nth_error sensors k = Some s /\ InQ m s) /\
+    exists i, (i < n)%nat /\ t = tmf t0 incs i /\ t <= m /\ m < tmf t0 incs (S i).
+  Proof.
+    destruct fb_run_spec as (_ & _ & _ & _ & H5 & _).
+    intros k m t H. apply H5 in H as (Hm & (s & Hs & Hst) & i & Hi & -> & Hrest).
+    rewrite fb_due_clip in Hm. apply filter_In in Hm as [_ Hr]. apply in_range_true in Hr.
+    split; [tauto|]. split; [tauto|]. split.
+    - exists s. split; [assumption|]. now apply stamped_true.
+    - exists i. split; [lia|]. tauto.
+  Qed.
+
+  Theorem fb_records_increasing_sec :
+    sorted (record_times tr) /\
+    (forall t, In t (record_times tr) -> In t (t0 :: incs) /\ t < tend) /\
+    exists r, record_times tr = t0 :: r.
+  Proof.
+    destruct fb_run_spec as (_ & _ & _ & _ & _ & H6 & H7 & H8).
+    split; [assumption|]. split.
+    - intros t H. apply H7 in H as (i & Hi & ->). split.
+      + unfold tmf. apply nth_In. cbn [length]. lia.
+      + rewrite (last_tmf t0 incs Hne). apply (tm_lt t0 incs Hsorted); lia.
+    - apply H8. destruct incs; [congruence|cbn; lia].
+  Qed.
+
+  Theorem fb_no_meas_single_pass_sec :
+    (forall s x, In s sensors -> In x s -> ~ (t0 <= x /\ x < tend)) ->
+    forall k m t, ~ In (Innov k m t) tr.
+  Proof.
+    intros Hnone k m t H. apply fb_innov_sound_sec in H as (H1 & H2 & (s & Hs & y & Hy & He) & _).
+    apply (Hnone s y); [now apply nth_error_In with k|assumption|lra].
+  Qed.
+End FeedbackTop.
+
+(* ---------- C09 theorems, closed statements ------------------------------- *)
+
+(* termination for an arbitrary outcome of `time + time_step` (>= time) *)
+Theorem fb_terminates_oracle : forall add_step t0 incs sensors fuel,
+  (forall t, t <= add_step t) -> sorted (t0 :: incs) -> incs <> [] ->
+  (length incs <= fuel)%nat ->
+  completed (fb_run fuel add_step t0 incs sensors) = true.
+Proof. intros. now apply fb_terminates_sec. Qed.
+
+Theorem fb_imu_exactly_once_oracle : forall add_step t0 incs sensors fuel,
+  (forall t, t <= add_step t) -> sorted (t0 :: incs) -> incs <> [] ->
+  (length incs <= fuel)%nat ->
+  let tr := fb_run fuel add_step t0 incs sensors in
+  integrated tr = seq 0 (length incs) /\
+  (forall a b, In (Integrate a b) tr -> (a < b)%nat /\ (b <= length incs)%nat) /\
+  fb_trajectory_index t0 incs tr = t0 :: incs.
+Proof. intros. now apply fb_imu_exactly_once_sec. Qed.
+
+Theorem fb_meas_exactly_once_oracle : forall add_step t0 incs sensors fuel,
+  (forall t, t <= add_step t) -> sorted (t0 :: incs) -> incs <> [] ->
+  (length incs <= fuel)%nat ->
+  let tr := fb_run fuel add_step t0 incs sensors in
+  let tend := last incs t0 in
+  (forall k s, nth_error sensors k = Some s ->
+     sorted (innov_epochs k tr) /\
+     (forall x, InQ x (innov_epochs k tr) <-> InQ x s /\ t0 <= x /\ x < tend) /\
+     Forall2 Qeq (innov_epochs k tr) (sort_unique (filter (in_range t0 tend) s))) /\
+  (forall k, nth_error sensors k = None -> innov_epochs k tr = []).
+Proof. intros. now apply fb_meas_exactly_once_sec. Qed.
+
+Theorem fb_innov_sound_oracle : forall add_step t0 incs sensors fuel,
+  (forall t, t <= add_step t) -> sorted (t0 :: incs) -> incs <> [] ->
+  (length incs <= fuel)%nat ->
+  forall k m t, In (Innov k m t) (fb_run fuel add_step t0 incs sensors) ->
+  t0 <= m /\ m < last incs t0 /\
+  (exists s, nth_error sensors k = Some s /\ InQ m s) /\
+  exists i, (i < length incs)%nat /\ t = tmf t0 incs i /\ t <= m /\ m < tmf t0 incs (S i).
+Proof. intros until 4. now apply fb_innov_sound_sec. Qed.
+
+Theorem fb_records_increasing_oracle : forall add_step t0 incs sensors fuel,
+  (forall t, t <= add_step t) -> sorted (t0 :: incs) -> incs <> [] ->
+  (length incs <= fuel)%nat ->
+  let tr := fb_run fuel add_step t0 incs sensors in
+  sorted (record_times tr) /\
+  (forall t, In t (record_times tr) -> In t (t0 :: incs) /\ t < last incs t0) /\
+  exists r, record_times tr = t0 :: r.
+Proof. intros. now apply fb_records_increasing_sec. Qed.
+
+Theorem fb_no_meas_single_pass_oracle : forall add_step t0 incs sensors fuel,
+  (forall t, t <= add_step t) -> sorted (t0 :: incs) -> incs <> [] ->
+  (length incs <= fuel)%nat ->
+  (forall s x, In s sensors -> In x s -> ~ (t0 <= x /\ x < last incs t0)) ->
+  forall k m t, ~ In (Innov k m t) (fb_run fuel add_step t0 incs sensors).
+Proof. intros until 5. now apply fb_no_meas_single_pass_sec. Qed.
+
+(* exact rational arithmetic: add_step t = t + time_step *)
+Lemma exact_step : forall time_step, 0 <= time_step -> forall t, t <= t + time_step.
+Proof. intros. lra. Qed.
+
+Theorem fb_terminates : forall time_step t0 incs sensors fuel,
+  0 <= time_step -> sorted (t0 :: incs) -> incs <> [] -> (length incs <= fuel)%nat ->
+  completed (fb_run_exact fuel time_step t0 incs sensors) = true.
+Proof. intros. apply fb_terminates_oracle; auto using exact_step. Qed.
+
+Theorem fb_imu_exactly_once : forall time_step t0 incs sensors fuel,
+  0 <= time_step -> sorted (t0 :: incs) -> incs <> [] -> (length incs <= fuel)%nat ->
+  let tr := fb_run_exact fuel time_step t0 incs sensors in
+  integrated tr = seq 0 (length incs) /\
+  (forall a b, In (Integrate a b) tr -> (a < b)%nat /\ (b <= length incs)%nat) /\
+  fb_trajectory_index t0 incs tr = t0 :: incs.
+Proof. intros. apply fb_imu_exactly_once_oracle; auto using exact_step. Qed.
+
+Theorem fb_meas_exactly_once : forall time_step t0 incs sensors fuel,
+  0 <= time_step -> sorted (t0 :: incs) -> incs <> [] -> (length incs <= fuel)%nat ->
+  let tr := fb_run_exact fuel time_step t0 incs sensors in
+  let tend := last incs t0 in
+  (forall k s, nth_error sensors k = Some s ->
+     sorted (innov_epochs k tr) /\
+     (forall x, InQ x (innov_epochs k tr) <-> InQ x s /\ t0 <= x /\ x < tend) /\
+     Forall2 Qeq (innov_epochs k tr) (sort_unique (filter (in_range t0 tend) s))) /\
+  (forall k, nth_error sensors k = None -> innov_epochs k tr = []).
+Proof. intros. apply fb_meas_exactly_once_oracle; auto using exact_step. Qed.
+
+Theorem fb_innov_sound : forall time_step t0 incs sensors fuel,
+  0 <= time_step -> sorted (t0 :: incs) -> incs <> [] -> (length incs <= fuel)%nat ->
+  forall k m t, In (Innov k m t) (fb_run_exact fuel time_step t0 incs sensors) ->
+  t0 <= m /\ m < last incs t0 /\
+  (exists s, nth_error sensors k = Some s /\ InQ m s) /\
+  exists i, (i < length incs)%nat /\ t = tmf t0 incs i /\ t <= m /\ m < tmf t0 incs (S i).
+Proof. intros until 4. apply fb_innov_sound_oracle; auto using exact_step. Qed.
+
+Theorem fb_records_increasing : forall time_step t0 incs sensors fuel,
+  0 <= time_step -> sorted (t0 :: incs) -> incs <> [] -> (length incs <= fuel)%nat ->
+  let tr := fb_run_exact fuel time_step t0 incs sensors in
+  sorted (record_times tr) /\
+  (forall t, In t (record_times tr) -> In t (t0 :: incs) /\ t < last incs t0) /\
+  exists r, record_times tr = t0 :: r.
+Proof. intros. apply fb_records_increasing_oracle; auto using exact_step. Qed.
+
+Theorem fb_no_meas_single_pass : forall time_step t0 incs sensors fuel,
+  0 <= time_step -> sorted (t0 :: incs) -> incs <> [] -> (length incs <= fuel)%nat ->
+  (forall s x, In s sensors -> In x s -> ~ (t0 <= x /\ x < last incs t0)) ->
+  forall k m t, ~ In (Innov k m t) (fb_run_exact fuel time_step t0 incs sensors).
+Proof. intros until 5. apply fb_no_meas_single_pass_oracle; auto using exact_step. Qed.
+
+(* ========================================================================= *)
+(*  Part D : the feedforward loop (C10)                                      *)
+(* ========================================================================= *)
+
+(* consecutive propagation steps: each one starts where the previous ended *)
+Fixpoint chain (a : nat) (l : list (nat * nat)) (b : nat) : Prop :=
+  match l with
+  | [] => a = b
+  | (i, j) :: r => i = a /\ chain j r b
+  end.
+
+Lemma epochs_rows_related : forall (R : Q -> Q -> Prop) k tr,
+  (forall m t, In (Innov k m t) tr -> R m t) ->
+  Forall2 R (innov_epochs k tr) (innov_rows k tr).
+Proof.
+  intros R k tr. induction tr as [|e tr IH]; intro H; [constructor|].
+  unfold innov_epochs, innov_rows. cbn [flat_map].
+  fold (innov_epochs k tr). fold (innov_rows k tr).
+  assert (IH' : Forall2 R (innov_epochs k tr) (innov_rows k tr)).
+  { apply IH. intros m t Hin. apply H. now right. }
+  destruct e; try exact IH'.
+  destruct (Nat.eqb_spec k sensor) as [->|Hne]; [|exact IH'].
+  cbn [app]. constructor; [|exact IH']. apply H. now left.
+Qed.
+
+Section Feedforward.
+  Variable add_step : Q -> Q.
+  Variable times : list Q.
+  Variable sensors : list (list Q).
+  Hypothesis Hsorted : sorted times.
+
+  Local Notation len := (length times).
+  Local Notation tt := (fun i => nth i times 0).
+  Local Notation due := (filter (fun m => Qltb m (nth (len - 1) times 0))).
+
+  Lemma tt_lt : forall i j, (i < j)%nat -> (j < len)%nat -> nth i times 0 < nth j times 0.
+  Proof. intros. now apply sorted_nth_lt. Qed.
+
+  Lemma tt_le : forall i j, (i <= j)%nat -> (j < len)%nat -> nth i times 0 <= nth j times 0.
+  Proof. intros. now apply sorted_nth_le. Qed.
+
+  (* the row cursor always advances by at least one row, stays inside the
+     table, never passes the next pending measurement epoch and never passes
+     `time + time_step` unless it advances by exactly one row *)
+  Lemma ff_step : forall index p',
+    (index + 1 < len)%nat ->
+    match p' with [] => True | m :: _ => nth (index + 1) times 0 <= m end ->
+    let next_time := min_inf (add_step (nth index times 0)) (head_inf p') in
+    let next_index := Nat.max (searchsorted_right times next_time - 1) (index + 1) in
+    (index < next_index < len)%nat /\
+    match p' with [] => True | m :: _ => nth next_index times 0 <= m end /\
+    (next_index = (index + 1)%nat \/ nth next_index times 0 <= add_step (nth index times 0)).
+  Proof.
+    intros index p' Hidx Hp next_time next_index.
+    assert (Hup : next_time <= add_step (nth index times 0)).
+    { subst next_time. destruct p' as [|m p]; cbn [min_inf head_inf]; [lra|].
+      destruct (Qltb m (add_step (nth index times 0))) eqn:E;
+        [apply Qltb_true in E|]; lra. }
+    assert (Hupm : match p' with [] => True | m :: _ => next_time <= m end).
+    { subst next_time. destruct p' as [|m p]; cbn [min_inf head_inf]; [exact I|].
+      destruct (Qltb m (add_step (nth index times 0))) eqn:E; [lra|].
+      now apply Qltb_false in E. }
+    pose proof (ss_le_len times next_time) as Hlen.
+    subst next_index.
+    destruct (Nat.max_spec (searchsorted_right times next_time - 1) (index + 1))
+      as [[Hlt ->]|[Hge ->]].
+    - split; [lia|]. split; [exact Hp|now left].
+    - assert (Hpre : nth (searchsorted_right times next_time - 1) times 0 <= next_time).
+      { apply ss_prefix. lia. }
+      split; [lia|]. split; [|right; lra].
+      destruct p' as [|m p]; [exact I|]. lra.
+  Qed.
+
+  Lemma ff_loop_done : forall fuel index pending, ~ (index + 1 < len)%nat ->
+    ff_loop fuel add_step times sensors index pending = [].
+  Proof.
+    intros fuel index pending H.
+    assert (E : Nat.ltb (index + 1) len = false) by (apply Nat.ltb_ge; lia).
+    destruct fuel; cbn [ff_loop]; now rewrite E.
+  Qed.
+
+  Lemma ff_loop_step : forall fuel index pending, (index + 1 < len)%nat ->
+    ff_loop (S fuel) add_step times sensors index pending =
+    let (ev, pending') :=
+      inner sensors (nth index times 0) (nth (index + 1) times 0) pending in
+    let next_time := min_inf (add_step (nth index times 0)) (head_inf pending') in
+    let next_index := Nat.max (searchsorted_right times next_time - 1) (index + 1) in
+    match nth_error times next_index with
+    | None => ev ++ [Record (nth index times 0); Crash]
+    | Some _ =>
+        ev ++ Record (nth index times 0) :: Propagate index next_index
+           :: ff_loop fuel add_step times sensors next_index pending'
+    end.
+  Proof.
+    intros fuel index pending H. cbn [ff_loop].
+    assert (E : Nat.ltb (index + 1) len = true) by (apply Nat.ltb_lt; lia).
+    rewrite E.
+    rewrite (nth_error_nth' times 0 (n:=index)) by lia.
+    rewrite (nth_error_nth' times 0 (n:=(index + 1)%nat)) by lia.
+    reflexivity.
+  Qed.
+
+  Definition ff_spec (index : nat) (pending : list Q) (tr : list event) : Prop :=
+    completed tr = true /\
+    (forall k, innov_epochs k tr = flat_map (sel sensors k) (due pending)) /\
+    (forall k m t, In (Innov k m t) tr ->
+       In m (due pending) /\
+       (exists s, nth_error sensors k = Some s /\ stamped m s = true) /\
+       exists i, (index <= i)%nat /\ (i + 1 < len)%nat /\ t = nth i times 0 /\
+                 nth i times 0 <= m /\ m < nth (i + 1) times 0) /\
+    sorted (record_times tr) /\
+    (forall t, In t (record_times tr) ->
+       exists i, (index <= i)%nat /\ (i + 1 < len)%nat /\ t = nth i times 0) /\
+    ((index + 1 < len)%nat -> exists r, record_times tr = nth index times 0 :: r) /\
+    (forall i j, In (i, j) (propagations tr) ->
+       (index <= i < j)%nat /\ (j < len)%nat /\
+       (j = (i + 1)%nat \/ nth j times 0 <= add_step (nth i times 0))) /\
+    chain index (propagations tr) (len - 1) /\
+    record_times tr = map (fun p => nth (fst p) times 0) (propagations tr).
+
+  Lemma ff_loop_spec : forall fuel index pending,
+    (len - 1 - index <= fuel)%nat -> (index < len)%nat ->
+    sorted pending -> Forall (fun m => nth index times 0 <= m) pending ->
+    ff_spec index pending (ff_loop fuel add_step times sensors index pending).
+  Proof.
+    assert (Base : forall fuel index pending, (index < len)%nat -> ~ (index + 1 < len)%nat ->
+              Forall (fun m => nth index times 0 <= m) pending ->
+              ff_spec index pending (ff_loop fuel add_step times sensors index pending)).
+    { intros fuel index pending Hidx Hdone Hlow. rewrite ff_loop_done by assumption.
+      assert (index = len - 1)%nat as -> by lia.
+      assert (Hdue : due pending = []).
+      { apply filter_all_false. intros x Hx. rewrite Forall_forall in Hlow.
+        apply Qltb_false. auto. }
+      unfold ff_spec. rewrite Hdue.
+      split; [|split; [|split; [|split; [|split; [|split; [|split; [|split]]]]]]];
+        try reflexivity; try (intros; contradiction); try (intros; lia).
+      constructor. }
+    induction fuel as [|fuel IH]; intros index pending Hfuel Hidx Hsp Hlow.
+    - apply Base; [assumption|lia|assumption].
+    - destruct (Nat.lt_ge_cases (index + 1) len) as [Hlt|Hge];
+        [|apply Base; [assumption|lia|assumption]].
+      rewrite (ff_loop_step fuel index pending Hlt).
+      destruct (inner sensors (nth index times 0) (nth (index + 1) times 0) pending)
+        as [ev p'] eqn:Einner.
+      apply inner_spec in Einner as (pre & Hsplit & Hev & Hpre & Hhead).
+      destruct (ff_step index p' Hlt Hhead) as (Hn' & Hhead' & Hbound).
+      cbv zeta.
+      set (nidx := Nat.max (searchsorted_right times
+                      (min_inf (add_step (nth index times 0)) (head_inf p')) - 1)
+                      (index + 1)) in *.
+      rewrite (nth_error_nth' times 0 (n:=nidx)) by lia.
+      assert (Hsp' : sorted p') by (subst pending; now apply sorted_app_r in Hsp).
+      assert (Hlow' : Forall (fun m => nth nidx times 0 <= m) p').
+      { destruct p' as [|m p]; [constructor|]. now apply sorted_head_le. }
+      specialize (IH nidx p' ltac:(lia) ltac:(lia) Hsp' Hlow').
+      set (tr' := ff_loop fuel add_step times sensors nidx p') in *.
+      destruct IH as (I1 & I2 & I3 & I4 & I5 & I6 & I7 & I8 & I9).
+      pose proof (events_all_innov sensors (nth index times 0) pre) as Hall.
+      rewrite <- Hev in Hall.
+      assert (Hdue : due pending = pre ++ due p').
+      { subst pending. apply (filter_lt_split pre p' (nth (index + 1) times 0));
+          [assumption|]. apply tt_le; lia. }
+      unfold ff_spec.
+      change (ev ++ Record (nth index times 0) :: Propagate index nidx :: tr')
+        with (ev ++ [Record (nth index times 0); Propagate index nidx] ++ tr').
+      split; [|split; [|split; [|split; [|split; [|split; [|split; [|split]]]]]]].
+      + rewrite !completed_app, I1, (all_innov_completed ev Hall). reflexivity.
+      + intro k. rewrite !innov_epochs_app, I2, Hdue, flat_map_app. f_equal.
+        subst ev. apply events_epochs.
+      + intros k m t H. apply in_app_or in H as [H|H].
+        * subst ev. apply events_In in H as (Hm & -> & Hs).
+          split; [rewrite Hdue; apply in_or_app; now left|].
+          split; [assumption|].
+          exists index. split; [lia|]. split; [lia|]. split; [reflexivity|].
+          rewrite Forall_forall in Hlow, Hpre. split.
+          -- apply Hlow. subst pending. apply in_or_app. now left.
+          -- now apply Hpre.
+        * apply in_app_or in H as [H|H]; [destruct H as [H|[H|[]]]; discriminate H|].
+          apply I3 in H as (Hm & Hs & i & Hi & Hrest).
+          split; [rewrite Hdue; apply in_or_app; now right|].
+          split; [assumption|].
+          exists i. split; [lia|assumption].
+      + rewrite !record_times_app, (all_innov_records ev Hall).
+        cbn [record_times flat_map app].
+        apply sorted_cons_iff. split; [assumption|].
+        apply Forall_forall. intros x Hx. apply I5 in Hx as (i & Hi & Hi' & ->).
+        apply tt_lt; lia.
+      + intros t H. rewrite !record_times_app, (all_innov_records ev Hall) in H.
+        cbn [record_times flat_map app] in H. destruct H as [<-|H].
+        * exists index. split; [lia|]. split; [lia|reflexivity].
+        * apply I5 in H as (i & Hi & Hi' & ->). exists i. split; [lia|]. now split.
+      + intros _. rewrite !record_times_app, (all_innov_records ev Hall).
+        cbn [record_times flat_map app]. eexists. reflexivity.
+      + intros i j H. rewrite !propagations_app, (all_innov_propagations ev Hall) in H.
+        cbn [propagations flat_map app] in H. destruct H as [H|H].
+        * inversion H; subst i j. split; [lia|]. split; [lia|exact Hbound].
+        * apply I7 in H as (H1 & H2 & H3). split; [lia|]. now split.
+      + rewrite !propagations_app, (all_innov_propagations ev Hall).
+        cbn [propagations flat_map app chain]. now split.
+      + rewrite !record_times_app, !propagations_app, (all_innov_records ev Hall),
+          (all_innov_propagations ev Hall).
+        cbn [record_times propagations flat_map app map fst]. now rewrite I9.
+  Qed.
+End Feedforward.
+
+(* ---------- feedforward: whole function ----------------------------------- *)
+
+Section FeedforwardTop.
+  Variable add_step : Q -> Q.
+  Variable times : list Q.
+  Variable sensors : list (list Q).
+  Variable fuel : nat.
+  Hypothesis Hsorted : sorted times.
+  Hypothesis Hlen : (2 <= length times)%nat.
+  Hypothesis Hfuel : (length times - 1 <= fuel)%nat.
+
+  Local Notation len := (length times).
+  Local Notation tstart := (nth 0 times 0).
+  Local Notation tend := (nth (len - 1) times 0).
+  Local Notation tr := (ff_run fuel add_step times sensors).
+
+  Lemma ff_run_spec :
+    ff_spec add_step times sensors 0 (clip tstart tend (merge_times sensors)) tr.
+  Proof.
+    unfold ff_run. destruct times as [|a l] eqn:E; [cbn in Hlen; lia|]. rewrite <- E in *.
+    assert (Hl : last times a = tend).
+    { apply last_nth_len. rewrite E. discriminate. }
+    rewrite Hl. replace a with tstart by (rewrite E; reflexivity).
+    apply ff_loop_spec; try assumption; try lia.
+    - apply clip_sorted, merge_times_sorted.
+    - apply Forall_forall. intros m Hm. apply clip_In in Hm. tauto.
+  Qed.
+
+  Lemma ff_due_clip :
+    filter (fun m => Qltb m tend) (clip tstart tend (merge_times sensors)) =
+    filter (in_range tstart tend) (merge_times sensors).
+  Proof. apply filter_lt_clip. Qed.
+
+  Theorem ff_terminates_sec : completed tr = true.
+  Proof. apply ff_run_spec. Qed.
+
+  Theorem ff_records_sec :
+    sorted (record_times tr) /\
+    (forall t, In t (record_times tr) -> In t times /\ t < tend) /\
+    (exists r, record_times tr = tstart :: r) /\
+    record_times tr = map (fun p => nth (fst p) times 0) (propagations tr).
+  Proof.
+    destruct ff_run_spec as (_ & _ & _ & H4 & H5 & H6 & _ & _ & H9).
+    split; [assumption|]. split; [|split; [apply H6; lia|assumption]].
+    intros t H. apply H5 in H as (i & _ & Hi & ->). split.
+    - apply nth_In. lia.
+    - apply (tt_lt times Hsorted); lia.
+  Qed.
+
+  Theorem ff_positive_propagate_sec :
+    (forall i j, In (i, j) (propagations tr) -> (i < j)%nat /\ (j < len)%nat /\
+                                               nth i times 0 < nth j times 0) /\
+    chain 0 (propagations tr) (len - 1).
+  Proof.
+    destruct ff_run_spec as (_ & _ & _ & _ & _ & _ & H7 & H8 & _).
+    split; [|assumption].
+    intros i j H. apply H7 in H as (H1 & H2 & _). split; [lia|]. split; [lia|].
+    apply (tt_lt times Hsorted); lia.
+  Qed.
+
+  Theorem ff_step_bound_sec : forall i j, In (i, j) (propagations tr) ->
+    j = (i + 1)%nat \/ nth j times 0 <= add_step (nth i times 0).
+  Proof.
+    destruct ff_run_spec as (_ & _ & _ & _ & _ & _ & H7 & _).
+    intros i j H. now apply H7 in H.
+  Qed.
+
+  Theorem ff_meas_exactly_once_sec :
+    (forall k s, nth_error sensors k = Some s ->
+       sorted (innov_epochs k tr) /\
+       (forall x, InQ x (innov_epochs k tr) <-> InQ x s /\ tstart <= x /\ x < tend) /\
+       Forall2 Qeq (innov_epochs k tr) (sort_unique (filter (in_range tstart tend) s)) /\
+       Forall2 (fun m t => exists i, (i + 1 < len)%nat /\ t = nth i times 0 /\
+                                     t <= m /\ m < nth (i + 1) times 0)
+               (innov_epochs k tr) (innov_rows k tr)) /\
+    (forall k, nth_error sensors k = None -> innov_epochs k tr = []).
+  Proof.
+    destruct ff_run_spec as (_ & H2 & H3 & _).
+    split.
+    - intros k s Hk. rewrite H2, ff_due_clip.
+      destruct (sensor_epochs_spec sensors k s tstart tend Hk) as [S1 S2].
+      split; [assumption|]. split; [assumption|]. split.
+      + apply sorted_same_elements; [assumption|apply sort_unique_sorted|].
+        intro x. rewrite S2, sort_unique_InQ, InQ_filter_range. tauto.
+      + rewrite <- ff_due_clip, <- H2. apply epochs_rows_related.
+        intros m t H. apply H3 in H as (_ & _ & i & _ & Hi & -> & Hrest).
+        exists i. tauto.
+    - intros k Hk. rewrite H2. now apply sel_none.
+  Qed.
+
+  Theorem ff_innov_sound_sec : forall k m t, In (Innov k m t) tr ->
+    tstart <= m /\ m < tend /\
+    (exists s, nth_error sensors k = Some s /\ InQ m s) /\
+    exists i, (i + 1 < len)%nat /\ t = nth i times 0 /\ t <= m /\ m < nth (i + 1) times 0.
+  Proof.
+    destruct ff_run_spec as (_ & _ & H3 & _).
+    intros k m t H. apply H3 in H as (Hm & (s & Hs & Hst) & i & _ & Hi & -> & Hrest).
+    rewrite ff_due_clip in Hm. apply filter_In in Hm as [_ Hr]. apply in_range_true in Hr.
+    split; [tauto|]. split; [tauto|]. split.
+    - exists s. split; [assumption|]. now apply stamped_true.
+    - exists i. tauto.
+  Qed.
+End FeedforwardTop.
+
+(* ---------- C10 theorems, closed statements ------------------------------- *)
+
+Theorem ff_terminates_oracle : forall add_step times sensors fuel,
+  sorted times -> (2 <= length times)%nat ->
+  (length times - 1 <= fuel)%nat ->
+  completed (ff_run fuel add_step times sensors) = true.
+Proof. intros. now apply ff_terminates_sec. Qed.
+
+Theorem ff_records_oracle : forall add_step times sensors fuel,
+  sorted times -> (2 <= length times)%nat ->
+  (length times - 1 <= fuel)%nat ->
+  let tr := ff_run fuel add_step times sensors in
+  sorted (record_times tr) /\
+  (forall t, In t (record_times tr) -> In t times /\ t < nth (length times - 1) times 0) /\
+  (exists r, record_times tr = nth 0 times 0 :: r) /\
+  record_times tr = map (fun p => nth (fst p) times 0) (propagations tr).
+Proof. intros. now apply ff_records_sec. Qed.
+
+Theorem ff_positive_propagate_oracle : forall add_step times sensors fuel,
+  sorted times -> (2 <= length times)%nat ->
+  (length times - 1 <= fuel)%nat ->
+  let tr := ff_run fuel add_step times sensors in
+  (forall i j, In (i, j) (propagations tr) ->
+     (i < j)%nat /\ (j < length times)%nat /\ nth i times 0 < nth j times 0) /\
+  chain 0 (propagations tr) (length times - 1).
+Proof. intros. now apply ff_positive_propagate_sec. Qed.
+
+Theorem ff_step_bound_oracle : forall add_step times sensors fuel,
+  sorted times -> (2 <= length times)%nat ->
+  (length times - 1 <= fuel)%nat ->
+  forall i j, In (i, j) (propagations (ff_run fuel add_step times sensors)) ->
+  j = (i + 1)%nat \/ nth j times 0 <= add_step (nth i times 0).
+Proof. intros until 3. now apply ff_step_bound_sec. Qed.
+
+Theorem ff_meas_exactly_once_oracle : forall add_step times sensors fuel,
+  sorted times -> (2 <= length times)%nat ->
+  (length times - 1 <= fuel)%nat ->
+  let tr := ff_run fuel add_step times sensors in
+  let tstart := nth 0 times 0 in
+  let tend := nth (length times - 1) times 0 in
+  (forall k s, nth_error sensors k = Some s ->
+     sorted (innov_epochs k tr) /\
+     (forall x, InQ x (innov_epochs k tr) <-> InQ x s /\ tstart <= x /\ x < tend) /\
+     Forall2 Qeq (innov_epochs k tr) (sort_unique (filter (in_range tstart tend) s)) /\
+     Forall2 (fun m t => exists i, (i + 1 < length times)%nat /\ t = nth i times 0 /\
+                                   t <= m /\ m < nth (i + 1) times 0)
+             (innov_epochs k tr) (innov_rows k tr)) /\
+  (forall k, nth_error sensors k = None -> innov_epochs k tr = []).
+Proof. intros. now apply ff_meas_exactly_once_sec. Qed.
+
+Theorem ff_innov_sound_oracle : forall add_step times sensors fuel,
+  sorted times -> (2 <= length times)%nat ->
+  (length times - 1 <= fuel)%nat ->
+  forall k m t, In (Innov k m t) (ff_run fuel add_step times sensors) ->
+  nth 0 times 0 <= m /\ m < nth (length times - 1) times 0 /\
+  (exists s, nth_error sensors k = Some s /\ InQ m s) /\
+  exists i, (i + 1 < length times)%nat /\ t = nth i times 0 /\ t <= m /\
+            m < nth (i + 1) times 0.
+Proof. intros until 3. now apply ff_innov_sound_sec. Qed.
+
+(* exact rational arithmetic *)
+Theorem ff_terminates : forall time_step times sensors fuel,
+  sorted times -> (2 <= length times)%nat ->
+  (length times - 1 <= fuel)%nat ->
+  completed (ff_run_exact fuel time_step times sensors) = true.
+Proof. intros. apply ff_terminates_oracle; auto. Qed.
+
+Theorem ff_records : forall time_step times sensors fuel,
+  sorted times -> (2 <= length times)%nat ->
+  (length times - 1 <= fuel)%nat ->
+  let tr := ff_run_exact fuel time_step times sensors in
+  sorted (record_times tr) /\
+  (forall t, In t (record_times tr) -> In t times /\ t < nth (length times - 1) times 0) /\
+  (exists r, record_times tr = nth 0 times 0 :: r) /\
+  record_times tr = map (fun p => nth (fst p) times 0) (propagations tr).
+Proof. intros. apply ff_records_oracle; auto. Qed.
+
+Theorem ff_positive_propagate : forall time_step times sensors fuel,
+  sorted times -> (2 <= length times)%nat ->
+  (length times - 1 <= fuel)%nat ->
+  let tr := ff_run_exact fuel time_step times sensors in
+  (forall i j, In (i, j) (propagations tr) ->
+     (i < j)%nat /\ (j < length times)%nat /\ nth i times 0 < nth j times 0) /\
+  chain 0 (propagations tr) (length times - 1).
+Proof. intros. apply ff_positive_propagate_oracle; auto. Qed.
+
+Theorem ff_step_bound : forall time_step times sensors fuel,
+  sorted times -> (2 <= length times)%nat ->
+  (length times - 1 <= fuel)%nat ->
+  forall i j, In (i, j) (propagations (ff_run_exact fuel time_step times sensors)) ->
+  nth j times 0 - nth i times 0 <=
+  Qmax time_step (nth (i + 1) times 0 - nth i times 0).
+Proof.
+  intros time_step times sensors fuel Hsorted Hlen Hfuel i j H.
+  apply ff_step_bound_oracle in H; auto.
+  destruct H as [->|H].
+  - apply Q.le_max_r.
+  - eapply Qle_trans; [|apply Q.le_max_l]. lra.
+Qed.
+
+Theorem ff_meas_exactly_once : forall time_step times sensors fuel,
+  sorted times -> (2 <= length times)%nat ->
+  (length times - 1 <= fuel)%nat ->
+  let tr := ff_run_exact fuel time_step times sensors in
+  let tstart := nth 0 times 0 in
+  let tend := nth (length times - 1) times 0 in
+  (forall k s, nth_error sensors k = Some s ->
+     sorted (innov_epochs k tr) /\
+     (forall x, InQ x (innov_epochs k tr) <-> InQ x s /\ tstart <= x /\ x < tend) /\
+     Forall2 Qeq (innov_epochs k tr) (sort_unique (filter (in_range tstart tend) s)) /\
+     Forall2 (fun m t => exists i, (i + 1 < length times)%nat /\ t = nth i times 0 /\
+                                   t <= m /\ m < nth (i + 1) times 0)
+             (innov_epochs k tr) (innov_rows k tr)) /\
+  (forall k, nth_error sensors k = None -> innov_epochs k tr = []).
+Proof. intros. apply ff_meas_exactly_once_oracle; auto. Qed.
+
+Theorem ff_innov_sound : forall time_step times sensors fuel,
+  sorted times -> (2 <= length times)%nat ->
+  (length times - 1 <= fuel)%nat ->
+  forall k m t, In (Innov k m t) (ff_run_exact fuel time_step times sensors) ->
+  nth 0 times 0 <= m /\ m < nth (length times - 1) times 0 /\
+  (exists s, nth_error sensors k = Some s /\ InQ m s) /\
+  exists i, (i + 1 < length times)%nat /\ t = nth i times 0 /\ t <= m /\
+            m < nth (i + 1) times 0.
+Proof. intros until 3. apply ff_innov_sound_oracle; auto. Qed.
+
+(* ========================================================================= *)
+(*  The guards are necessary: the same loops without them are refuted         *)
+(* ========================================================================= *)
+
+(* feedforward without `max(., index + 1)`  (the loop before commit 7949717):
+   time_step smaller than the sampling gap and no pending measurement *)
+Fixpoint ff_loop_noguard (fuel : nat) (add_step : Q -> Q) (times : list Q)
+         (sensors : list (list Q)) (index : nat) (pending : list Q) : list event :=
+  if Nat.ltb (index + 1) (length times) then
+    match fuel with
+    | O => [OutOfFuel]
+    | S fuel' =>
+        match nth_error times index, nth_error times (index + 1) with
+        | Some time, Some bound =>
+            let (ev, pending') := inner sensors time bound pending in
+            let next_time := min_inf (add_step time) (head_inf pending') in
+            let next_index := (searchsorted_right times next_time - 1)%nat in
+            ev ++ Record time :: Propagate index next_index
+               :: ff_loop_noguard fuel' add_step times sensors next_index pending'
+        | _, _ => [Crash]
+        end
+    end
+  else [].
+
+Lemma ff_noguard_refuted : exists times step,
+  sorted times /\ 0 < step /\
+  forall fuel, completed (ff_loop_noguard fuel (fun t => t + step) times [] 0 []) = false.
+Proof.
+  exists [0; 1#8], (1#16). split; [|split; [reflexivity|]].
+  - repeat constructor.
+  - induction fuel as [|fuel IH]; [reflexivity|].
+    cbn [ff_loop_noguard]. exact IH.
+Qed.
+
+(* feedback with a single `if measurement_time < increment.name` instead of the
+   inner `while` (the loop before commit 93d9afe): one epoch per iteration *)
+Fixpoint fb_loop_pinned (fuel : nat) (add_step : Q -> Q) (incs : list Q)
+         (sensors : list (list Q)) (end_time : Q)
+         (itime : Q) (idx : nat) (pending : list Q) : list event :=
+  if Qltb itime end_time then
+    match fuel with
+    | O => [OutOfFuel]
+    | S fuel' =>
+        match nth_error incs idx with
+        | None => [Crash]
+        | Some bound =>
+            let (ev, pending') :=
+              match pending with
+              | m :: rest => if Qltb m bound then (epoch_events sensors m itime, rest)
+                             else ([], pending)
+              | [] => ([], [])
+              end in
+            let next_time := min_inf (add_step itime) (head_inf pending') in
+            let nidx := searchsorted_right incs next_time in
+            let nidx' := if Nat.eqb nidx idx then S nidx else nidx in
+            let itime' := last (batch incs idx nidx') itime in
+            ev ++ Record itime :: Integrate idx nidx'
+               :: fb_loop_pinned fuel' add_step incs sensors end_time itime' nidx' pending'
+        end
+    end
+  else [].
+
+Definition fb_run_pinned (fuel : nat) (step t0 : Q) (incs : list Q)
+           (sensors : list (list Q)) : list event :=
+  fb_loop_pinned fuel (fun t => t + step) incs sensors (last incs t0) t0 0
+                 (clip t0 (last incs t0) (merge_times sensors)).
+
+(* (a) three sensors stamped at three distinct times inside one IMU interval:
+   the `== -> += 1` guard is not enough, a batch is empty (iloc[1:0]), the cursor
+   moves back and increment 0 is integrated twice *)
+Lemma fb_pinned_refuted_cluster : exists t0 incs sensors step,
+  sorted (t0 :: incs) /\ 0 < step /\
+  let tr := fb_run_pinned 10 step t0 incs sensors in
+  completed tr = true /\ In (Integrate 1 0) tr /\
+  integrated tr = [0; 0; 1; 2]%nat.
+Proof.
+  exists 1, [9#8; 10#8; 11#8], [[129#128]; [130#128]; [131#128]], (1#8).
+  split; [repeat constructor|]. split; [reflexivity|].
+  vm_compute. repeat split. right; right; right; right; right; now left.
+Qed.
+
+(* (b) two epochs inside the last IMU interval: the second one is in
+   [start, end) and produces no innovation row *)
+Lemma fb_pinned_refuted_last_interval : exists t0 incs sensors step,
+  sorted (t0 :: incs) /\ 0 < step /\
+  let tr := fb_run_pinned 10 step t0 incs sensors in
+  completed tr = true /\ innov_epochs 0 tr = [149#128] /\ innov_epochs 1 tr = [].
+Proof.
+  exists 1, [9#8; 10#8], [[149#128]; [153#128]], (1#8).
+  split; [repeat constructor|]. split; [reflexivity|].
+  vm_compute. repeat split.
+Qed.
+
+(* the hypothesis `t <= add_step t` of the feedback theorems is necessary: with
+   a negative step the guard fails in the same way *)
+Lemma fb_negative_step_refuted : exists t0 incs,
+  sorted (t0 :: incs) /\
+  integrated (fb_run 4 (fun t => t - 1) t0 incs []) <> seq 0 (length incs).
+Proof.
+  exists 0, [1; 2; 3]. split; [repeat constructor|].
+  vm_compute. discriminate.
 Qed.
